@@ -398,6 +398,12 @@ def all_paths(maxseg):
                 yield p + '/'
     yield '/'
     yield ''
+    # names no file system accepts: a segment beyond NAME_MAX, a path beyond PATH_MAX, an embedded NUL - not files, like any
+    # other path that names nothing
+    for prefix in ('/', '/static/', '/static/sub/'):
+        yield prefix + 'a' * 300 + '.js'
+        yield prefix + 'in\x00dex.html'
+    yield '/static' + '/sub' * 1100 + '/file.css'
 
 
 _TREE = {}
